@@ -64,6 +64,20 @@ Check C13_spec_meaning :
     in_range I128 (coeff d) = true.
 Print Assumptions C13_spec_meaning.
 
+(* and that r is a nearest integer to value * 10^18 (value = num / den), the even one on a tie *)
+Theorem C13_spec_nearest_even :
+  forall num den, 0 < den ->
+    let r := rnd RHalfEven (num * 10 ^ 18) den in
+    2 * Z.abs (num * 10 ^ 18 - r * den) <= den /\
+    (2 * Z.abs (num * 10 ^ 18 - r * den) = den -> Z.even r = true).
+Proof. exact spec_round_nearest. Qed.
+Check C13_spec_nearest_even :
+  forall num den, 0 < den ->
+    let r := rnd RHalfEven (num * 10 ^ 18) den in
+    2 * Z.abs (num * 10 ^ 18 - r * den) <= den /\
+    (2 * Z.abs (num * 10 ^ 18 - r * den) = den -> Z.even r = true).
+Print Assumptions C13_spec_nearest_even.
+
 (* 2^-19 = 0.0000019073486328125 has a 5 in the 19th place after an even digit: rounds
    down; 3 * 2^-19 rounds up; 0.1f64 is not exact; NaN, +inf, 2^127 *)
 Example C13_nonvacuous :
